@@ -181,6 +181,8 @@ struct Builder {
     double heading;
     std::vector<double> corner;  // junction angles between consecutive sections (0 = tangent continuous)
     std::string desc;
+    std::string construct_fail;  // a construction call did not store the section it was asked for
+    int construct_checked = 0;
 
     std::vector<Interpolation> wi, oi;
     // width / offset arguments: continuous with the current end values
@@ -235,8 +237,14 @@ static void one_call(Builder& B, bool allow_corner) {
     auto P = [&](double a, double s) { return ref + f * a + l * s; };
     uint64_t before = rp.subpath_array.count;
     char buf[256];
+    // what the call is asked to build (independent of what it stores): control points of a polynomial section / the end point
+    std::vector<Vec2> want_ctrl;
+    bool have_end = false;
+    Vec2 want_end = {0, 0};
+    auto T = [&](Vec2 p) { return rel ? c + p : p; };
     if (kind == 0) {
         rp.segment(P(d, 0), wp, op, rel);
+        want_ctrl = {c, T(P(d, 0))};
         B.desc += "segment ";
     } else if (kind == 1 || kind == 2) {
         // horizontal / vertical only when the heading allows a small turn
@@ -248,33 +256,50 @@ static void one_call(Builder& B, bool allow_corner) {
             double dd = sgn * d;
             if (horiz) rp.horizontal(rel ? dd : c.x + dd, wp, op, rel);
             else rp.vertical(rel ? dd : c.y + dd, wp, op, rel);
+            want_ctrl = {c, horiz ? Vec2{c.x + dd, c.y} : Vec2{c.x, c.y + dd}};
             turn = 0;
             B.desc += horiz ? "horizontal " : "vertical ";
         } else {
             rp.segment(P(d, 0), wp, op, rel);
+            want_ctrl = {c, T(P(d, 0))};
             B.desc += "segment ";
         }
     } else if (kind == 3) {
         double r = (5 + (double)g.below(5)) * W, ang = ((double)g.range(20, 100)) * M_PI / 180 * (g.coin() ? 1 : -1);
         rp.turn(r, ang, wp, op);
+        {
+            double a0t = h + (ang < 0 ? 0.5 * M_PI : -0.5 * M_PI);
+            want_end = Vec2{c.x - r * cos(a0t) + r * cos(a0t + ang), c.y - r * sin(a0t) + r * sin(a0t + ang)};
+            have_end = true;
+        }
         B.desc += "turn ";
     } else if (kind == 4) {
         double r = (5 + (double)g.below(5)) * W, ang = ((double)g.range(20, 100)) * M_PI / 180 * (g.coin() ? 1 : -1);
         double a0 = h + (ang < 0 ? 0.5 * M_PI : -0.5 * M_PI);
         double ry = g.chance(30) ? r * (0.9 + 0.2 * (double)g.below(101) / 100.0) : r;
         rp.arc(r, ry, a0, a0 + ang, 0, wp, op);
+        if (ry == r) {
+            want_end = Vec2{c.x - r * cos(a0) + r * cos(a0 + ang), c.y - r * sin(a0) + r * sin(a0 + ang)};
+            have_end = true;
+        }
         B.desc += ry == r ? "arc " : "elliptical-arc ";
     } else if (kind == 5) {
         rp.cubic(P(d / 3, 0), P(2 * d / 3, e / 2), P(d, e), wp, op, rel);
+        want_ctrl = {c, T(P(d / 3, 0)), T(P(2 * d / 3, e / 2)), T(P(d, e))};
         B.desc += "cubic ";
     } else if (kind == 6) {
         rp.cubic_smooth(P(2 * d / 3, e / 2), P(d, e), wp, op, rel);
+        want_end = T(P(d, e));
+        have_end = true;
         B.desc += "cubic_smooth ";
     } else if (kind == 7) {
         rp.quadratic(P(d / 2, 0), P(d, e), wp, op, rel);
+        want_ctrl = {c, T(P(d / 2, 0)), T(P(d, e))};
         B.desc += "quadratic ";
     } else if (kind == 8) {
         rp.quadratic_smooth(P(d, e / 2), wp, op, rel);
+        want_end = T(P(d, e / 2));
+        have_end = true;
         B.desc += "quadratic_smooth ";
     } else if (kind == 9) {
         std::vector<Vec2> pts = {P(d / 4, 0), P(d / 2, e / 2), P(3 * d / 4, e), P(d, e)};
@@ -282,6 +307,8 @@ static void one_call(Builder& B, bool allow_corner) {
         arr.items = pts.data();
         arr.count = pts.size();
         rp.bezier(arr, wp, op, rel);
+        want_ctrl = {c};
+        for (auto& q : pts) want_ctrl.push_back(T(q));
         B.desc += "bezier ";
     } else if (kind == 10) {
         std::vector<Vec2> pts = {P(d, e / 2), P(2 * d, e)};
@@ -295,6 +322,8 @@ static void one_call(Builder& B, bool allow_corner) {
         // width / offset changes are not passed here: RobustPath::interpolation applies the same Interpolation to
         // every cubic piece (see the `taper` probe)
         rp.interpolation(arr, angles.data(), cons, tension.data(), 1, 1, false, NULL, NULL, rel);
+        want_end = T(pts.back());
+        have_end = true;
         B.desc += "interpolation ";
     } else if (kind == 11) {
         ParamData& pd = g_param[g_nparam++ % 16];
@@ -316,9 +345,39 @@ static void one_call(Builder& B, bool allow_corner) {
         rp.commands(v.data(), v.size());
         B.desc += "commands ";
     }
+    // construction oracle: the stored section / the new end point against the arguments of the call
+    if (B.construct_fail.empty() && rp.subpath_array.count > before) {
+        double sc = 1;
+        for (auto& q : want_ctrl) sc = std::max(sc, std::max(fabs(q.x), fabs(q.y)));
+        sc = std::max(sc, std::max(fabs(c.x), fabs(c.y)));
+        if (!want_ctrl.empty()) {
+            std::vector<V> got = ctrl_of(rp.subpath_array[rp.subpath_array.count - 1]);
+            B.construct_checked++;
+            if (got.size() != want_ctrl.size() || rp.subpath_array.count != before + 1) {
+                snprintf(buf, sizeof buf, "call %d (%s): the section stored has %d control points, %d asked for", (int)before, B.desc.c_str(), (int)got.size(), (int)want_ctrl.size());
+                B.construct_fail = buf;
+            } else
+                for (size_t i = 0; i < got.size(); i++)
+                    if (fabsl(got[i].x - (ld)want_ctrl[i].x) > 1e-12L * sc || fabsl(got[i].y - (ld)want_ctrl[i].y) > 1e-12L * sc) {
+                        snprintf(buf, sizeof buf, "control point %d of the section stored is (%.12Lg, %.12Lg), the call (%s, last word; %s) asks for (%.12g, %.12g)", (int)i,
+                                 got[i].x, got[i].y, B.desc.c_str(), rel ? "relative" : "absolute", want_ctrl[i].x, want_ctrl[i].y);
+                        B.construct_fail = buf;
+                        break;
+                    }
+            want_end = want_ctrl.back();
+            have_end = true;
+        }
+        if (have_end && B.construct_fail.empty()) {
+            B.construct_checked++;
+            if (fabs(rp.end_point.x - want_end.x) > 1e-9 * sc || fabs(rp.end_point.y - want_end.y) > 1e-9 * sc) {
+                snprintf(buf, sizeof buf, "after the call (%s, last word; %s) the end point is (%.12g, %.12g), the call asks for (%.12g, %.12g)", B.desc.c_str(),
+                         rel ? "relative" : "absolute", rp.end_point.x, rp.end_point.y, want_end.x, want_end.y);
+                B.construct_fail = buf;
+            }
+        }
+    }
     for (uint64_t i = before; i < rp.subpath_array.count; i++) B.corner.push_back(i == before ? turn : 0.0);
     B.update_heading();
-    (void)buf;
 }
 
 // ------------------------------------------------------------------ centre curve of an element, long double
@@ -780,6 +839,7 @@ static std::string hx(double d) { return hex_dbl(d == 0 ? 0.0 : d); }  // -0 pri
 
 static void query_cases(uint64_t seed, uint64_t idx, Emit& em) {
     Rng g(seed * 1000003ULL + idx * 7919ULL + 31);
+    std::string construct_fail;
     RobustPath rp = {};
     uint64_t n = 1 + g.below(2);
     rp.num_elements = n;
@@ -827,11 +887,13 @@ static void query_cases(uint64_t seed, uint64_t idx, Emit& em) {
         bool rel = g.coin();
         Vec2 c = rp.end_point;
         auto pt = [&]() { return Vec2{dy(), dy()}; };
-        if (kind == 0) rp.segment(pt(), wp, op, rel);
-        else if (kind == 1) rp.horizontal(dy(), wp, op, rel);
-        else if (kind == 2) rp.vertical(dy(), wp, op, rel);
-        else if (kind == 3) rp.quadratic(pt(), pt(), wp, op, rel);
-        else if (kind == 4) rp.cubic(pt(), pt(), pt(), wp, op, rel);
+        auto T = [&](Vec2 p) { return rel ? c + p : p; };
+        std::vector<Vec2> want;  // the control points the call asks for (dyadic: the additions are exact)
+        if (kind == 0) { Vec2 a = pt(); rp.segment(a, wp, op, rel); want = {c, T(a)}; }
+        else if (kind == 1) { double x = dy(); rp.horizontal(x, wp, op, rel); want = {c, Vec2{rel ? c.x + x : x, c.y}}; }
+        else if (kind == 2) { double y = dy(); rp.vertical(y, wp, op, rel); want = {c, Vec2{c.x, rel ? c.y + y : y}}; }
+        else if (kind == 3) { Vec2 a = pt(), b2 = pt(); rp.quadratic(a, b2, wp, op, rel); want = {c, T(a), T(b2)}; }
+        else if (kind == 4) { Vec2 a = pt(), b2 = pt(), c3 = pt(); rp.cubic(a, b2, c3, wp, op, rel); want = {c, T(a), T(b2), T(c3)}; }
         else {
             std::vector<Vec2> pts;
             int m = 1 + (int)g.below(5);
@@ -840,8 +902,20 @@ static void query_cases(uint64_t seed, uint64_t idx, Emit& em) {
             arr.items = pts.data();
             arr.count = pts.size();
             rp.bezier(arr, wp, op, rel);
+            want = {c};
+            for (auto& q : pts) want.push_back(T(q));
         }
-        (void)c;
+        if (construct_fail.empty()) {
+            std::vector<V> got = ctrl_of(rp.subpath_array[rp.subpath_array.count - 1]);
+            bool okc = got.size() == want.size();
+            for (size_t j = 0; okc && j < got.size(); j++) okc = got[j].x == (ld)want[j].x && got[j].y == (ld)want[j].y;
+            if (!okc || rp.end_point.x != want.back().x || rp.end_point.y != want.back().y) {
+                char cb[200];
+                snprintf(cb, sizeof cb, "section %d (call kind %d, %s): the stored control points / end point (%.9g, %.9g) are not those the call asks for (end (%.9g, %.9g))",
+                         (int)rp.subpath_array.count - 1, kind, rel ? "relative" : "absolute", rp.end_point.x, rp.end_point.y, want.back().x, want.back().y);
+                construct_fail = cb;
+            }
+        }
     }
     // dyadic transformation: translate, scale by a power of two
     if (g.coin()) rp.translate(Vec2{dy(), dy()});
@@ -863,6 +937,9 @@ static void query_cases(uint64_t seed, uint64_t idx, Emit& em) {
     for (uint64_t e = 0; e < n; e++) common += ";W" + std::to_string(e) + "=" + wdesc[e] + ";O" + std::to_string(e) + "=" + odesc[e];
     char gidb[64];
     snprintf(gidb, sizeof gidb, "g=%llu:%llu", (unsigned long long)seed, (unsigned long long)idx);
+    em.K("construct", std::string(gidb) + ";exact");
+    em.I("exact");
+    em.P(construct_fail.empty() ? "ok" : "FAIL robustpath-construction " + construct_fail);
     uint64_t ns = rp.subpath_array.count;
     for (int q = 0; q < 12; q++) {
         double u;
@@ -1106,6 +1183,9 @@ static void run_path(uint64_t seed, uint64_t idx, const std::string& outdir, FIL
         B.desc = "segment ";
         int ncalls = 1 + (int)g.below(4);
         for (int i = 0; i < ncalls; i++) one_call(B, true);
+        em.K("construct", gid);
+        em.I(std::to_string(B.construct_checked) + " checks");
+        em.P(B.construct_fail.empty() ? "ok" : "FAIL robustpath-construction " + B.construct_fail);
     }
     // transformation of the whole path (the trafo matrix takes part in every query)
     if (!directed && g.chance(30)) {
